@@ -208,6 +208,15 @@ def flag_equivalence(case, rng, kp0):
     kp = direct.build_real_top(case['chain'], regressor=pykoop.DataRegressor(coef=coef))
     kp.fit(case.get('Xfit', X), n_inputs=nu, episode_feature=ep)
     w = kp.min_samples_
+    # the same check on other valid array types: single precision and integer-typed data
+    kind = ['float64', 'float32', 'int64'][int(case.get('cid', 0)) % 3]
+    if kind == 'float32':
+        X = np.asarray(X).astype(np.float32)
+    elif kind == 'int64':
+        Xi = np.round(2 * np.asarray(X))
+        if ep:
+            Xi[:, 0] = np.asarray(X)[:, 0]
+        X = Xi.astype(np.int64)
 
     def compute():
         out = {}
@@ -231,9 +240,10 @@ def flag_equivalence(case, rng, kp0):
     with pykoop.config_context(skip_validation=True):
         b = compute()
     for k in a:
-        if a[k].shape != b[k].shape or not np.array_equal(a[k], b[k], equal_nan=True):
+        if a[k].shape != b[k].shape or a[k].dtype != b[k].dtype or not np.array_equal(a[k], b[k], equal_nan=True):
             return False, dict(what=f'{k} differs between skip_validation=False and skip_validation=True',
-                               computation=k, shape_validating=list(a[k].shape), shape_skipping=list(b[k].shape))
+                               computation=k, shape_validating=list(a[k].shape), shape_skipping=list(b[k].shape),
+                               dtype_validating=str(a[k].dtype), dtype_skipping=str(b[k].dtype), input_dtype=kind)
     return True, None
 
 
@@ -266,8 +276,8 @@ def run(res, tier):
               'real pipelines and multi-episode layouts (interleaved rows included), np.array_equal.'),
         samples=samples + s2, script_stats=stats, translator=gen,
         model_vs_impl_disagreements=len(failed), coq_case_errors=len(errors))
-    res.assumptions += ['valid input = float64 2-D ndarray (check_array is then the identity); DataFrame / list inputs are '
-                        'coerced only by the guarded check_array and are outside the claim',
+    res.assumptions += ['valid input = 2-D ndarray of a numeric dtype (float64, float32, int64 are exercised; check_array is then the identity); '
+                        'DataFrame / list inputs are coerced only by the guarded check_array and are outside the claim',
                         'CPython thread-local storage and the GIL as documented; the turn token fixes the interleaving at '
                         'operation granularity (operations are not preempted mid-way in the model)']
     _dp.conclude(res, PID, proved, batch, failed, errors, bad + bad2,
